@@ -363,7 +363,11 @@ func (h *Handler) handleCopyMove(w http.ResponseWriter, r *http.Request) (status
 	if dst == "" {
 		return http.StatusBadGateway, errInvalidDestination
 	}
-	if dst == src {
+	// Compare the resources, not the spellings: "/a/", "/a/." or "/./a" all
+	// name "/a". A destination that is the source, or a collection that
+	// contains the source, must not be overwritten, since overwriting starts
+	// by removing the destination and with it the source.
+	if cs, cd := slashClean(src), slashClean(dst); cd == cs || strings.HasPrefix(cs, strings.TrimSuffix(cd, "/")+"/") {
 		return http.StatusForbidden, errDestinationEqualsSource
 	}
 
